@@ -20,7 +20,7 @@ RULE = ("period {1,2.5,10,3600(jump)} x duration profile {constant, growing, shr
 ASSUMPTIONS = ["Redis and RabbitMQ are wire-level fakes", "virtual time", "cron schedules not reachable (croniter absent)",
                "scheduled time of an iteration = the next_execution_time its message carried (for the first: deferred_until or timestamp+period)"]
 EVAL_COUNTER = "iterations_judged"
-REQUIRED = ["iterations_judged", "profile_shrinking", "profile_longer", "outcome_retry", "outcome_exhausted", "outcome_eager_exhausted", "outcome_store_fault", "first_run_deferred_until", "twin_chains_judged", "timezone_offset_runs"]
+REQUIRED = ["iterations_judged", "profile_shrinking", "profile_longer", "outcome_retry", "outcome_exhausted", "outcome_eager_exhausted", "outcome_store_fault", "first_run_deferred_until", "twin_chains_judged", "timezone_offset_runs", "zero_backoff_runs"]
 CASE_TIMEOUT = 150
 
 PROFILES = ["constant", "growing", "shrinking", "sawtooth", "longer"]
@@ -41,6 +41,11 @@ def gen_cases(tier, seed):
                         cases.append({"kind": kind, "p": p, "profile": prof, "outcomes": oc, "du": du, "iters": rnd.choice([8, 12]) if p >= 10 else rnd.choice([10, 16, 25]),
                                       "seed": rnd.randrange(10**6), "latency": None if kind == "mem" else 0.002})
         cases.append({"kind": kind, "p": 3600.0, "profile": "constant", "outcomes": "ok", "du": "none", "iters": 6, "seed": rnd.randrange(10**6), "latency": None, "jump": True})
+    # retries without any back-off inside the chains
+    for kind in ("mem", "redis", "rabbit"):
+        for oc in (("retry", "mixed", "exhausted") if tier == "quick" else ("retry", "mixed", "exhausted", "eager_exhausted")):
+            for prof in (("constant",) if tier == "quick" else ("constant", "longer")):
+                cases.append({"kind": kind, "p": 2.5, "profile": prof, "outcomes": oc, "du": "none", "iters": 10, "seed": rnd.randrange(10**6), "latency": None if kind == "mem" else 0.002, "zero_backoff": True})
     # the same cadence rules on machines whose local time is not UTC (schedules are naive local datetimes)
     for i, tz in enumerate(("JST-9", "CET-1", "EST5", "IST-5:30")):
         for kind in ("mem", "redis", "rabbit"):
@@ -93,7 +98,10 @@ async def scenario(loop, case, out, stats, fps, samples):
     w = World(loop, kind, converter="basic", seed=case["seed"], latency=case["latency"])
     try:
         await w.open()
-        r = w.router(retry_policy=lambda retry_number=1: timedelta(seconds=0.05 * p))
+        # (zero_backoff: a policy of no delay - the retry goes straight back to the queue and may be handed out again at once)
+        backoff = 0.0 if case.get("zero_backoff") else 0.05 * p
+        stats["zero_backoff_runs" if case.get("zero_backoff") else "delayed_backoff_runs"] += 1
+        r = w.router(retry_policy=lambda retry_number=1: timedelta(seconds=backoff))
         w.scripted_actor(r, "act")
         await w.conn.message_broker.queue_declare("default")
         loop.jump(1.0 + rnd.choice([0.0, 0.3, 0.77]))
@@ -110,7 +118,7 @@ async def scenario(loop, case, out, stats, fps, samples):
                 steps = [{"do": "raise", "d": ds[i]}, {"do": "ok", "d": 0.01}]
             elif o == "eager_exhausted":
                 # the actor asks for retries itself until none is left (the last request is refused: an ordinary failure)
-                er = {"do": "eager", "action": "retry", "pre": [], "next": 0.05 * p}
+                er = {"do": "eager", "action": "retry", "pre": [], "next": backoff}
                 steps = [dict(er, d=ds[i]), dict(er, d=0.01), dict(er, d=0.01)]
             else:
                 steps = [{"do": "raise", "d": ds[i]}, {"do": "raise", "d": 0.01}, {"do": "raise", "d": 0.01}]
@@ -314,6 +322,21 @@ async def twins_scenario(loop, case, out, stats, fps, samples):
                 # what the worker did last with the chain's message tells the mechanisms apart: a successor written by
                 # requeue that is nowhere, or a taken successor handed back (limit reached / consumer finished) that is nowhere
                 mech = {"requeue": "successor-never-stored", "reject": "handed-back-successor-gone"}.get(last, f"after-{last}")
+                if last == "requeue" and kind == "redis":
+                    # ... or a successor that WAS stored and then taken by the worker's prefetching consumer, whose finish()
+                    # stopped the fetch between the take and the hand-over (the server's command log tells)
+                    qd, qn_ = f"q:{qn}:{prio.value}:d".encode(), f"q:{qn}:{prio.value}:n".encode()
+                    stored = taken = None
+                    for i_, entry in enumerate(w.rig.server.log):
+                        if entry[1] != "EXEC":
+                            continue
+                        for cmd in entry[2]:
+                            if cmd[0] in (b"ZADD", b"LPUSH", b"RPUSH") and cmd[1] in (qd, qn_):
+                                stored, taken = i_, None
+                            elif cmd[0] in (b"ZREM", b"LREM") and cmd[1] in (qd, qn_):
+                                taken = i_
+                    if stored is not None and taken is not None:
+                        mech = "taken-successor-abandoned-mid-fetch"
                 out.append(V("no_successor" if not live else "two_successors", kind, f"twins/final-state/{mech}",
                              f"chain {c} ({qn}, priority {prio.value}): after both chains ran {len(runs)} times its successor is at {live or 'no queue'} (all places of id r1: {places}); last broker call for it: {last}"))
         if variant == "priorities" and total != 2 * n:
